@@ -363,6 +363,30 @@ impl AST {
                                 return;
                             }
                         };
+                        // Every placeholder consumes exactly one argument.
+                        let placeholders = parts
+                            .iter()
+                            .filter(|p| matches!(p, TemplatePart::PlaceHolder(_)))
+                            .count();
+                        if placeholders != elems.len() {
+                            ops.push(
+                                Op::Val(Primitive::Str(
+                                    format!(
+                                        "Format string has {} placeholders but {} arguments were given",
+                                        placeholders,
+                                        elems.len()
+                                    )
+                                    .into(),
+                                )),
+                                def.pos.clone(),
+                            );
+                            ops.push(Op::Bang, def.pos);
+                            return;
+                        }
+                        if parts.is_empty() {
+                            // An empty template renders as the empty string.
+                            parts.push(TemplatePart::Str(Vec::new()));
+                        }
                         // We need to push process these in reverse order for the
                         // vm to process things correctly;
                         elems.reverse();
@@ -403,6 +427,10 @@ impl AST {
                                 return;
                             }
                         };
+                        if parts.is_empty() {
+                            // An empty template renders as the empty string.
+                            parts.push(TemplatePart::Str(Vec::new()));
+                        }
                         parts.reverse();
                         let mut parts_iter = parts.drain(0..);
                         ops.push(Op::Noop, expr.pos().clone());
